@@ -1,0 +1,38 @@
+//go:build verif
+
+// Contracts for the verification machinery in /verif (comment-only; excluded from normal builds).
+// Property C06 (partial: the marking pass). Mode bv.
+//
+// rep_ok(p): every entry of the pass's function table is an object with a function and a body (what
+// new_RemoveUnusedPass builds). The marking functions are proved, for EVERY module (including calls to names
+// that are not functions and table.set instructions), to run without a nil dereference, to colour their
+// argument black, never to un-colour anything, and to leave the table as it is.
+
+package watstrip
+
+//@ spec rep_ok(p *_RemoveUnusedPass) bool := p != nil && p.funcs != nil &&
+//@      (forall k string :: has(p.funcs, k) ==> p.funcs[k] != nil && p.funcs[k].Func != nil && p.funcs[k].Func.Body != nil && p.funcs[k].Func.Name == k)
+//@ spec mono(p *_RemoveUnusedPass) bool := forall k string :: has(p.funcs, k) && old(p.funcs[k].color) == black ==> p.funcs[k].color == black
+
+//@ func (*_RemoveUnusedPass).markFuncReachable
+//@   requires rep_ok(p) && fn != nil && fn.Func != nil && fn.Func.Body != nil
+//@   requires[member] has(p.funcs, fn.Func.Name) && p.funcs[fn.Func.Name] == fn
+//@   loop 0 invariant rep_ok(p) && fn.color == black && mono(p)
+//@   ensures[black] fn.color == black
+//@   ensures[mono]  mono(p)
+//@   ensures[rep]   rep_ok(p)
+//@   modifies allof(fn.color)
+//@   safe
+//@   property C06
+
+//@ func (*_RemoveUnusedPass).markFuncReachable_ins
+//@   requires rep_ok(p)
+//@   loop 0 invariant rep_ok(p) && mono(p)
+//@   loop 1 invariant rep_ok(p) && mono(p)
+//@   loop 2 invariant rep_ok(p) && mono(p)
+//@   loop 3 invariant rep_ok(p) && mono(p)
+//@   ensures[mono] mono(p)
+//@   ensures[rep]  rep_ok(p)
+//@   modifies allof(p.funcs[""].color)
+//@   safe
+//@   property C06
